@@ -375,12 +375,21 @@ def enc_version(v):
                                               T.encode_integer(PROTOCOL_VERSION_MINOR, v[1])])
 
 
+SERVER_HASHED_PASSWORD = 0x420155
+SERVER_CORRELATION_VALUE = 0x420106
+
+
 def build_response(v, operation, status, reason=None, message=None, payload_children=None,
-                   timestamp=1_700_000_000, repeat=1):
+                   timestamp=1_700_000_000, repeat=1, hdr=None):
     """A single-item ResponseMessage.  operation None = not echoed; payload_children None = no
     payload, else list of encoded children of ResponsePayload."""
-    hdr = T.encode_struct(RESPONSE_HEADER, [enc_version(v), T.encode_datetime(TIME_STAMP, timestamp),
-                                            T.encode_integer(BATCH_COUNT, repeat)])
+    extra = []
+    if hdr and hdr.get("shp") is not None:
+        extra.append(T.encode_bytes(SERVER_HASHED_PASSWORD, bytes.fromhex(hdr["shp"])))
+    if hdr and hdr.get("scv") is not None:
+        extra.append(T.encode_text(SERVER_CORRELATION_VALUE, hdr["scv"]))
+    hdr = T.encode_struct(RESPONSE_HEADER, [enc_version(v), T.encode_datetime(TIME_STAMP, timestamp)]
+                          + extra + [T.encode_integer(BATCH_COUNT, repeat)])
     item = []
     if operation is not None:
         item.append(T.encode_enum(OPERATION, operation))
